@@ -86,12 +86,14 @@ class AXISlave:
                     old = (old & ~(0xFF << (8 * b))) | (d & (0xFF << (8 * b)))
             self.mem[a] = old
             self.wlog.append((a, d))
+            sim.ev("axi_w", a, d)
             self.bq.append(i)
         if not self.rv and self.rq and self.rq[0][0] <= c:
             _, a, i = self.rq.pop(0)
             self.rv = 1
             v = self.word(a)
             self.rlog.append((a, v))
+            sim.ev("axi_r", a, v)
             p(self.r["valid"], 1)
             p(self.r["data"], v)
             p(self.r["id"], i)
@@ -190,7 +192,7 @@ def run(scn):
         sim.step()
         cyc += 1
         if not cyc & 63 and stuck(sim, cyc):
-            break       # no handshake anywhere for 20000 cycles: the run is stuck, do not spin to the cap
+            break       # no handshake anywhere for 60000 cycles: the run is stuck, do not spin to the cap
         if kind == "reader":
             o = drv.n - len(out)
             if o > stats["max_outstanding"]:
